@@ -51,6 +51,8 @@ def units(tier):
                 u.append(("symshift", c, m, gc, tr))
     for c, m in [("hex", (3, 3, 2)), ("mono", (2, 3, 2)), ("tetra_a", (4, 2, 4)), ("tetra_c", (2, 2, 3)), ("hex", 14.0), ("tetra_a", 11.0), ("mono", 9.0), ("ortho", 10.0)]:
         u.append(("api", c, m, True, True)); u.append(("api", c, m, False, True))
+    for c, m in [("cubic", (3, 3, 3)), ("hex", (3, 3, 2)), ("tetra_a", (4, 2, 4)), ("mono", (2, 3, 2))]:
+        u.append(("consequence", c, m, True, True)); u.append(("consequence", c, m, False, True))
     if tier == "thorough":
         for c, m in [("tetra_c", (4, 4, 3)), ("mono", (2, 3, 2)), ("cubic", (5, 5, 5)), ("tetra_a", (2, 4, 4)), ("hex", (5, 5, 3)), ("tric", (3, 2, 4)), ("mono", (4, 2, 4)), ("tetra_a", (4, 2, 4))]:
             for gc in (True, False):
@@ -153,6 +155,55 @@ def _decide(res, u, v, m, key, svars, sub):
     (res.violations if ok else res.unconfirmed).append({"key": key, "what": what, "replay": {"unit": [str(x) for x in u], "shift": shift}})
 
 
+def consequence_unit(u, res):
+    """the `consequently` clause on phonopy's own weighted sums: ThermalProperties (Python and compiled paths, with a cutoff that removes
+    modes at q-points of weight > 1 and with imaginary modes) on the irreducible points + weights of a real GridPoints object equals the
+    same sums over the full grid.  Frequencies come from a model dispersion that is exactly invariant under the reciprocal point group,
+    time reversal and reciprocal lattice translations.  Ground facts on concrete numbers (exp/log: no solver theory)."""
+    import types
+    import phonopy.structure.grid_points as gpm
+    from phonopy.phonon.thermal_properties import ThermalProperties
+    from engine import bridge
+    ctx = harness.setup()
+    _, cid, mesh, gc, tr = u
+    cell, rots, recs = crystal(cid)
+    rec_lat = np.linalg.inv(cell.cell)
+    ts = [np.array(t) for t in ((1, 0, 0), (0, 1, 1), (1, 2, 0), (1, 1, 1), (0, 0, 1), (2, 1, 1))]
+    allops = [R for R in recs] + [-R for R in recs]
+
+    def freqs(q):
+        # six bands between about -1 and 6 THz: acoustic-like bands go through zero, one band is negative (imaginary) in a region
+        base = [0.8, 1.6, 2.4, 3.0, 4.0, 0.3]; amp = [1.0, 1.4, 1.2, 0.5, 0.8, 1.5]
+        return np.array([base[b] + amp[b] * np.mean([np.cos(2 * np.pi * np.dot(ts[b], R @ q)) for R in allops]) for b in range(6)])
+    br = bridge.Bridge(ctx.shim, ctx.ir); br.install()
+    try:
+        for shift in (None, [0.5, 0.5, 0.5]):
+            out = {}
+            for symon in (True, False):
+                gp = gpm.GridPoints(np.array(mesh), rec_lat, q_mesh_shift=shift, is_gamma_center=gc, is_time_reversal=(tr if symon else False), fit_in_BZ=False,
+                                    rotations=rots if symon else np.eye(3, dtype="intc").reshape(1, 3, 3), is_mesh_symmetry=symon)
+                f = np.array([freqs(q) for q in gp.qpoints], dtype="double", order="C")
+                fake = types.SimpleNamespace(frequencies=f, eigenvectors=None, weights=np.array(gp.weights, dtype="int64"),
+                                             dynamical_matrix=types.SimpleNamespace(primitive=types.SimpleNamespace(Z=1)))
+                for lang in ("py", "C"):
+                    for cut in (None, 1.2):
+                        tp = ThermalProperties(fake, cutoff_frequency=cut)
+                        tp.run(t_step=150, t_max=450, t_min=0, lang=lang)
+                        out[(symon, lang, cut)] = (np.array(tp.thermal_properties[1:4]), len(gp.weights), int(np.max(gp.weights)))
+            for lang in ("py", "C"):
+                for cut in (None, 1.2):
+                    a, na, wmax = out[(True, lang, cut)]; b, nb, _ = out[(False, lang, cut)]
+                    d = float(np.nanmax(np.abs(a - b)))
+                    ok = d < 1e-8 * max(1.0, float(np.nanmax(np.abs(b)))) and not np.isnan(a).any()
+                    _ground(res, "F, S, Cv from %d irreducible points (max weight %d) == from all %d grid points [%s %s shift=%s lang=%s cutoff=%s]" % (na, wmax, nb, cid, mesh, shift, lang, cut), ok,
+                            "%s:consequence:%s:%s:%s:%s" % (PID, cid, mesh, lang, cut), "thermal properties with mesh symmetry on and off differ by %.3g (lang=%s, cutoff=%s, shift=%s)" % (d, lang, cut, shift))
+    finally:
+        br.uninstall()
+    res.twins.append({"name": "consequence twin: some weight exceeds 1", "verdict": "sat" if max(v[2] for v in out.values()) > 1 else "unsat"})
+    res.samples.append({"unit": res.unit})
+    return res
+
+
 def api_unit(u, res):
     """the same assertions on the GridPoints object that Phonopy.init_mesh builds (rotations handed over by the API;
     mesh numbers from a length through length2mesh): ground facts, evaluated by check_path on a concrete object"""
@@ -220,6 +271,8 @@ def run_unit(u):
     import phonopy.structure.grid_points as gpm
     if u[0] == "api":
         return api_unit(u, res)
+    if u[0] == "consequence":
+        return consequence_unit(u, res)
     kind, cid, mesh, gc, tr = u
     cell, rots, recs = crystal(cid)
     rec_lat = np.linalg.inv(cell.cell)
